@@ -9,7 +9,7 @@ def sh(cmd, cwd=W):
     return p.returncode, p.stdout
 def main():
     pid, x = sys.argv[1], sys.argv[2]
-    src = "/tmp/mut/%s.out" % pid
+    src = os.environ.get("MUTDIR", "/tmp/mut") + "/%s.out" % pid
     patch = "%s/%s.patch.diff" % (src, x)
     demo = "%s/%s.demo.rs" % (src, x)
     sh("git checkout -q -- . && git clean -fdq tests")
@@ -46,7 +46,7 @@ def main():
         print("REJECT: build or suite fails with patch", rc_b, rc_nb, s_out); return 1
     if m_ok and m_ok_nb:
         print("REJECT: demo still passes with patch"); return 1
-    dst = "/verif/seeded/%s-%s" % (pid, x)
+    dst = "/verif/seeded/%s-%s" % (pid, os.environ.get("MUTSUFFIX", "") + x)
     os.makedirs(dst, exist_ok=True)
     shutil.copy(patch, dst + "/patch.diff")
     shutil.copy(demo, dst + "/demo.rs")
